@@ -61,5 +61,15 @@ inductive WEv
   | flush
   deriving DecidableEq, Repr
 
+/-- what `Router.QuickMatch` calls, over an abstract router state `σ` (the route cache may change when a
+    dynamic route is matched), abstract routes `ρ` and parameter maps `π` -/
+structure QMEnv (σ ρ π : Type) where
+  /-- `r.match(method, path)` -/
+  match_ : σ → Bytes → Bytes → (Option ρ × Option π) × σ
+  /-- `r.findAllowedMethods(method, path)` -/
+  findAllowed : σ → Bytes → Bytes → List Bytes × σ
+  /-- `r.stableRoutes[key]` -/
+  stable : σ → Bytes → Option ρ
+
 end GoRt
 end Rux
